@@ -409,6 +409,7 @@ package tds
 //@ func NewPacketQueue returns (q)
 //@   modifies
 //@   ensures [fresh] q != nil && fresh(q) && len(q.queue) == 0 && q.indexPacket == 0 && q.indexData == 0 && !q.recvEOM
+//@   ensures [ghost-defaults] q.$r == 0 && q.$end == 0 && q.$w == 0 && !q.$readable && !q.$writable && !q.$dry
 //@ func (*PacketQueue).Reset
 //@   modifies queue.queue, queue.indexPacket, queue.indexData, queue.recvEOM, queue.$r
 //@   ghost-update at exit: queue.$r := queue.$end
@@ -689,6 +690,7 @@ package tds
 //@   ensures [type] packet.Header.MsgType == tdsChan.CurrentHeaderType
 //@   ensures [channel] tdsChan.channelId > 0 ==> packet.Header.Channel == tdsChan.channelId
 //@   ensures [channel0] tdsChan.channelId == 0 ==> packet.Header.Channel == old(packet.Header.Channel)
+//@   ensures [packet-nr] tdsChan.channelId > 0 ==> packet.Header.PacketNr == old(tdsChan.curPacketNr) % 256 && tdsChan.curPacketNr == (old(tdsChan.curPacketNr) + 1) % 256
 //@   ensures [length-kept] packet.Header.Length == old(packet.Header.Length)
 //@   ensures [eom-iff-short] (packet.Header.Status % 2 == 1) == (old(packet.Header.Status % 2 == 1) || len(packet.Data) != tdsChan.tdsConn.packetSize - 8)
 //@   ensures [open] err == nil ==> tdsChan.$open == (packet.Header.Status % 2 == 0)
@@ -829,7 +831,7 @@ package tds
 //@   ghost-update at exit: tdsChan.$rxn := err == nil ? tdsChan.$rxn + 1 : tdsChan.$rxn
 //@   ensures [script] err == nil ==> tdsChan.$rxn == old(tdsChan.$rxn) + 1 && tdsChan.$rxtag[old(tdsChan.$rxn)] == tag(pkg) && tdsChan.$rxst[old(tdsChan.$rxn)] == pkgstatus(pkg)
 //@   ensures [no-typed-nil] err == nil ==> tag(pkg) == 0 || payload(pkg) != 0
-//@   ensures [parsed] err == nil && tag(pkg) != 0 && !is(pkg, HeaderOnlyPackage) && !(is(pkg, *DonePackage) && !pkg.$parsed) ==> pkg.$parsed && pkg.$ready
+//@   ensures [parsed] err == nil && tag(pkg) != 0 && !is(pkg, *HeaderOnlyPackage) && !(is(pkg, *DonePackage) && !pkg.$parsed) ==> pkg.$parsed && pkg.$ready
 //@   ensures [script-kept] (forall i int :: 0 <= i && i < old(tdsChan.$rxn) ==> tdsChan.$rxtag[i] == old(tdsChan.$rxtag[i]) && tdsChan.$rxst[i] == old(tdsChan.$rxst[i])) && (err != nil ==> tdsChan.$rxn == old(tdsChan.$rxn))
 //@   ghost-update at exit: tdsChan.$lastFinal := err == nil ? (is(pkg, *DonePackage) && as(pkg, *DonePackage).Status == 0) : tdsChan.$lastFinal
 //@   ghost-update at exit: tdsChan.$rxfail := tdsChan.$rxfail || err != nil
@@ -870,7 +872,7 @@ package tds
 //@ # what travels through a channel's package queue: no typed nil pointers, and every package
 //@ # except header-only notifications and the synthetic final DONE was parsed completely
 //@ chaninv Channel.packageCh [no-typed-nil] tag(v) == 0 || payload(v) != 0
-//@ chaninv Channel.packageCh [parsed] tag(v) != 0 && !is(v, HeaderOnlyPackage) && !(is(v, *DonePackage) && !v.$parsed) ==> v.$parsed && v.$ready
+//@ chaninv Channel.packageCh [parsed] tag(v) != 0 && !is(v, *HeaderOnlyPackage) && !(is(v, *DonePackage) && !v.$parsed) ==> v.$parsed && v.$ready
 
 //@ # ---------------------------------------------------------------------
 //@ # Server messages and environment changes (C11)
@@ -931,3 +933,21 @@ package tds
 //@   ensures [length-field-consistent] err == nil ==> ch.$out[old(ch.$w) + 1] == ch.$w - old(ch.$w) - 2
 //@ func (DonePackage).WriteTo returns (err)
 //@   ensures [fixed-size] err == nil ==> ch.$w == old(ch.$w) + 9
+
+//@ # ---------------------------------------------------------------------
+//@ # Logical channels (C12), sequential part: a new channel gets an id that was not in use, its
+//@ # setup succeeds only on a header-only acknowledgement, outgoing packets carry the id and
+//@ # consecutive packet numbers
+//@ func (*Conn).getValidChannelId returns (id, err)
+//@   requires [channels] tds.tdsChannels != nil
+//@   modifies tds.tdsChannelCurFreeId
+//@   ensures [free-id] err == nil ==> 0 <= id && id <= 65535 && !maphas(tds.tdsChannels, id)
+//@   ensures [counter-advances] err == nil ==> tds.tdsChannelCurFreeId > id
+//@ typeinv Channel { [packet-nr-range] 0 <= this.curPacketNr && this.curPacketNr < 256 }
+//@ func (*Conn).NewChannel returns (ch, err)
+//@   requires [channels] tds.tdsChannels != nil
+//@   ghost-update at after tds.NewPacketQueue#1: $res0.$readable := true
+//@   ghost-update at after tds.NewPacketQueue#2: $res0.$writable := true
+//@   ensures [new-channel] err == nil ==> ch != nil && fresh(ch) && ch.tdsConn == tds
+//@   ensures [new-id] err == nil ==> !old(maphas(tds.tdsChannels, now(ch.channelId)))
+//@   ensures [setup-acknowledged] err == nil && ch.channelId > 0 ==> ch.$rxn >= 1 && ch.$rxtag[0] == typetag(*HeaderOnlyPackage)
